@@ -33,7 +33,16 @@ Absent == -1
 Rank(id) == CHOOSE i \in DOMAIN IdOrder : IdOrder[i] = id
 TRank(t) == CHOOSE i \in DOMAIN TopicOrder : TopicOrder[i] = t
 
-MatchKinds == {"none", "changed", "warn", "critchanged", "never", "tagA", "tagAwarn"}
+MatchKinds == {"none", "changed", "warn", "critchanged", "never", "tagA", "tagAwarn", "nameM", "taskT", "durGt1", "nameMchanged"}
+(* e.tag is the event's ATTRIBUTE CLASS (what the match expression can see besides levels):                *)
+(*   none: no tag, name m, task tk, duration 0      a / b: tag host=a / host=b                             *)
+(*   n: another name    u: another task name    d: duration 5s    ad: host=a and duration 5s               *)
+(*   x / xd: an AGGREGATED event - it has no name, task name or tags; its duration is the largest of the    *)
+(*           events it summarises (xd: one of them had 5s)                                                  *)
+HostA == {"a", "ad"}
+Named == {"none", "a", "b", "u", "d", "ad"}       \* name() == 'm'
+Tasked == {"none", "a", "b", "n", "d", "ad"}      \* taskName() == 'tk'
+Long == {"d", "ad", "xd"}                          \* alertDuration() > 1s
 NoCfg == [topic |-> "", kind |-> "none", match |-> "none", targets |-> <<>>]
 
 VARIABLES
@@ -69,8 +78,12 @@ Matches(m, e) ==
       [] m = "warn"        -> e.lvl >= 2
       [] m = "critchanged" -> e.lvl = 3 /\ e.lvl # e.prev
       [] m = "never"       -> FALSE
-      [] m = "tagA"        -> e.tag = "a"                  \* "host" == 'a'; an event without the tag is an evaluation error: not delivered
-      [] m = "tagAwarn"    -> e.tag = "a" /\ e.lvl >= 2
+      [] m = "tagA"        -> e.tag \in HostA              \* "host" == 'a'; an event without the tag is an evaluation error: not delivered
+      [] m = "tagAwarn"    -> e.tag \in HostA /\ e.lvl >= 2
+      [] m = "nameM"       -> e.tag \in Named
+      [] m = "taskT"       -> e.tag \in Tasked
+      [] m = "durGt1"      -> e.tag \in Long
+      [] m = "nameMchanged" -> e.tag \in Named /\ e.lvl # e.prev
 
 (* ---- the state transformer of one (nested or top-level) collect ---- *)
 St == [ev : events, so : sorted, co : collected, qu : queue, ul : updLog, se : sent]
@@ -162,7 +175,8 @@ AggTick(h) ==
     /\ hcfg[h].kind = "agg" /\ seen[h] # <<>>
     /\ LET t  == hcfg[h].targets[1]
            s1 == DoUpdateC(Cur, t, AggId, MaxLvl(seen[h]), seen[h][Len(seen[h])].src, h, 0, Len(seen[h]))
-           s2 == DoEnqueue(s1, LastUpd(s1, t))
+           cls == IF \E i \in DOMAIN seen[h] : seen[h][i].tag \in Long THEN "xd" ELSE "x"
+           s2 == DoEnqueue(s1, [LastUpd(s1, t) EXCEPT !.tag = cls])
        IN  Install(s2)
     /\ seen' = [seen EXCEPT ![h] = <<>>]
     /\ UNCHANGED <<reg, hcfg, pc, pend, n, nreg>>
